@@ -1243,6 +1243,23 @@ class Exec:
 MODULE_STATE = {}  # id(container) -> (module, name): mutable module-level objects
 
 
+class StrSym:
+    """symbolic string: only (in)equality with string constants is modelled"""
+
+    def __init__(self, name):
+        self.name = name
+        self.tests = {}
+
+    def eq_const(self, ex, c):
+        b = self.tests.get(c)
+        if b is None:
+            b = tm.var(f"{self.name}=={c!r}", tm.B)
+            for other in self.tests.values():
+                ex.facts.append(tm.lnot(tm.land(b, other)))
+            self.tests[c] = b
+        return b
+
+
 class RecordV:
     """one record of a structured array"""
 
@@ -1336,9 +1353,10 @@ def merge_values(rets, ex=None):
         typ = type(vals[0])
         return typ(merge_values([(c, v[i]) for c, v in rets]) for i in range(len(vals[0])))
     if all(isinstance(v, ArrV) for v in vals):
-        a0 = vals[0]
-        fns = [(c, v.cur()) for c, v in rets]
-        dts = {v.dtype for v in vals}
+        realv = [v for v in vals if not getattr(v, "is_empty_literal", False)]
+        a0 = realv[0] if realv else vals[0]
+        fns = [(c, (v.cur() if not getattr(v, "is_empty_literal", False) else (lambda idx: tm.rconst(0)))) for c, v in rets]
+        dts = {v.dtype for v in (realv or vals)}
 
         def fn(idx):
             r = fns[-1][1](idx)
@@ -1347,7 +1365,10 @@ def merge_values(rets, ex=None):
             return r
 
         dt = a0.dtype if len(dts) == 1 else "f8"
-        return ArrV(a0.shape, fn, dt, mask=a0.mask)
+        out = ArrV(a0.shape, fn, dt, mask=a0.mask)
+        if not realv:
+            out.is_empty_literal = True
+        return out
     if all(isinstance(v, str) for v in vals) and len(set(vals)) == 1:
         return vals[0]
     if all(v is vals[0] for v in vals):
